@@ -28,6 +28,11 @@ def check_defined(rep, repo, rule, roots, label):
             rep.fail(rule, f.where, '%s: a flag has a value on every path to its test' % label,
                      got='%s is only ever assigned constants under a condition; at line %d it holds one of them or nothing at all (UnboundLocalError when the condition never held)' % (name, line),
                      want='a default assignment in front of the conditional ones', construct='flag %s without default in %s' % (name, f.qualname), loc='%s:%d' % (f.relpath, line))
+        for line, g, missing, txt in lints.partial_key_caches(repo, f):
+            n_bad += 1
+            rep.fail(rule, f.where, '%s: a result kept between calls is reused only for the same inputs' % label,
+                     got='module-level %s keeps a value that depends on %s and hands it out again under %s (a later call with another %s gets the stale value)' % (g, missing, txt[:120], missing),
+                     want='no state between calls, or a key made of every input', construct='stale cache %s in %s (ignores %s)' % (g, f.qualname, missing), loc='%s:%d' % (f.relpath, line))
         for callee, line, txt in lints.crossed_arguments(f, E.calls.get(f, [])):
             n_bad += 1
             rep.fail(rule, f.where, '%s: arguments are passed in the order of the parameters they are named after' % label, got=txt,
